@@ -70,6 +70,24 @@ def convert_subscript_index(index: expr, transf: typing.Callable[[expr], expr]) 
     return transf(index)
 
 
+def as_condition(test: expr) -> expr:
+    """
+    Used when `test` runs as a value, the truth value of which is checked by
+    an outer expr (e.g. `test and body`, or the predicate of `takewhile`).
+
+    The value of a bool operation or a chained comparison is one of its operands,
+    so the truth value of that operand would be checked twice.
+    They are wrapped with an if-expr, which checks each operand only once,
+    as the `if`/`while` statements do.
+    """
+    node = test
+    while isinstance(node, UnaryOp) and isinstance(node.op, Not):
+        node = node.operand
+    if isinstance(node, BoolOp) or (isinstance(node, Compare) and len(node.ops) > 1):
+        return IfExp(test=test, body=Constant(value=True), orelse=Constant(value=False))
+    return test
+
+
 def list_wrapper(nodes: list[expr]) -> expr:
     return List(elts=nodes, ctx=Load())
 
